@@ -204,13 +204,49 @@ def cv(args, timeout=600, input_text=None):
     return p.stdout
 
 
-def run_cases(cmd_args, cases_file, n_cases, idle_timeout=20.0):
+def drive_trace(cmd_args, out, n_cases, timeout=600, max_crashes=4):
+    """Run an impl->spec driver `cv <cmd_args> --out OUT --start-case K [--append 1]` with crash isolation
+    (see harness util.rs TraceWriter). Returns the number of crashes/hangs turned into records."""
+    start, crashes = 0, 0
+    if os.path.exists(out):
+        os.remove(out)
+    while True:
+        args = [CV] + [str(a) for a in cmd_args] + ["--out", out, "--start-case", str(start), "--append", "1" if start else "0"]
+        try:
+            p = subprocess.run(args, stdout=subprocess.PIPE, stderr=subprocess.PIPE, text=True, timeout=timeout)
+            rc = p.returncode
+        except subprocess.TimeoutExpired:
+            raise ToolError("driver timed out: " + " ".join(map(str, cmd_args)))
+        if rc == 0:
+            return crashes
+        pend = out + ".pending"
+        if not os.path.exists(pend):
+            sys.stdout.write(p.stderr[-2000:])
+            raise ToolError("driver failed outside an operation rc=%s: %s" % (rc, " ".join(map(str, cmd_args))))
+        info = json.load(open(pend))
+        os.remove(pend)
+        kind = "hang" if rc == 3 else "abort"
+        with open(out, "a") as f:
+            f.write(json.dumps({"case": info["case"], "op": info["op"], "ret": {kind: rc}, "proj": {kind: True}}) + "\n")
+        crashes += 1
+        start = info["case"] + 1
+        if crashes >= max_crashes or start >= n_cases:
+            return crashes
+
+
+def run_cases(cmd_args, cases_file, n_cases, idle_timeout=20.0, max_crashes=4):
     """Run `cv <cmd_args> <cases_file> --skip K` with crash isolation. The harness prints
     `BEGIN i` before and `RESULT i <json>` after every case. A dead or silent child turns the
     case it was working on into an Abort / Hang result and the run continues after it."""
     results = {}
     skip = 0
+    crashes = 0
     while skip < n_cases:
+        if crashes >= max_crashes:
+            # the same defect usually repeats; the remaining cases of this batch are not executed
+            for i in range(skip, n_cases):
+                results[i] = {"status": "skipped"}
+            break
         proc = subprocess.Popen([CV] + [str(a) for a in cmd_args] + [cases_file, "--skip", str(skip)],
                                 stdout=subprocess.PIPE, stderr=subprocess.PIPE, text=True, errors="replace")
         current = None
@@ -247,13 +283,26 @@ def run_cases(cmd_args, cases_file, n_cases, idle_timeout=20.0):
         if hung and current is not None:
             results[current] = {"status": "hang", "detail": "no progress for %.0fs" % idle_timeout}
             skip = current + 1
+            crashes += 1
         elif current is not None:
             results[current] = {"status": "abort", "detail": "harness child died, rc=%s" % proc.returncode}
             skip = current + 1
+            crashes += 1
         elif hung:
             raise ToolError("harness hung outside a case")
         elif proc.returncode != 0:
-            raise ToolError("harness failed outside a case rc=%s" % proc.returncode)
+            # died between two cases: typically the allocator detecting heap corruption caused by the
+            # case that just finished
+            done = [i for i in results if i >= skip]
+            if proc.returncode > 0 or not done:
+                raise ToolError("harness failed outside a case rc=%s" % proc.returncode)
+            last = max(done)
+            prev = results[last]
+            results[last] = {"status": "abort", "steps": prev.get("steps", 0),
+                             "detail": "harness child died (rc=%s) right after this case finished with %s"
+                                       % (proc.returncode, json.dumps(prev)[:300])}
+            skip = last + 1
+            crashes += 1
         else:
             break
     return [results.get(i, {"status": "missing"}) for i in range(n_cases)]
@@ -324,7 +373,7 @@ class Run:
             json.dump(v, open(path, "w"), indent=1, sort_keys=True, default=str)
             replay_paths.append(path)
             print("VIOLATION property=%s replay=%s" % (self.pid, path))
-            print("  kind=%s site=%s detail=%s" % (v["kind"], v["site"], json.dumps(v["detail"], default=str)[:700]))
+            print("  kind=%s site=%s detail=%s" % (v["kind"], v["site"], json.dumps(v["detail"], default=str)[:400]))
         for key, n in sorted(per_key.items()):
             print("  violation class kind=%s site=%s: %d occurrence(s)" % (key[0], key[1], n))
         cov = dict(states=max(self.states, 0), transitions=max(self.transitions, 0),
